@@ -176,11 +176,11 @@ Qed.
 (* ---------- encode / decode ----------------------------------------------------------- *)
 Definition valid_msg (m : msg) : Prop :=
   1 <= m_dest m <= 160 /\ 161 <= m_src m <= 255 /\ (length (m_data m) <= 240)%nat /\
-  m_reg m < 256 /\ m_type m <= 9.
+  m_reg m < 256.
 
 Lemma ib_encode_valid m : valid_msg m -> ib_encode m = Ok ([13] ++ escape (ib_payload m) ++ [10]).
 Proof.
-  intros (Hd & Hs & Hl & Hg & _). unfold ib_encode, len.
+  intros (Hd & Hs & Hl & Hg). unfold ib_encode, len.
   replace ((1 <=? m_dest m) && (m_dest m <=? 160)) with true by lia.
   replace ((161 <=? m_src m) && (m_src m <=? 255)) with true by lia.
   replace (N.of_nat (length (m_data m)) <=? 240) with true by lia.
@@ -191,14 +191,14 @@ Lemma last_frame body : last (13 :: body ++ [10]) 0 = 10.
 Proof. rewrite app_comm_cons. apply last_last. Qed.
 
 (* decoding a frame 13 :: body ++ [10], with the list plumbing removed *)
-Lemma ib_decode_frame body :
+Lemma ib_decode_frame types body :
   (6 <= length body)%nat ->
-  ib_decode (13 :: body ++ [10]) =
+  ib_decode types (13 :: body ++ [10]) =
     let u := unescape body in
     if len u <? 6 then Err EValue
     else if negb (crc_of u =? 0) then Err EValue
     else match firstn (length u - 2) u with
-         | d :: s :: t :: g :: data => if t <=? 9 then Ok (mkmsg d s t g data) else Err EValue
+         | d :: s :: t :: g :: data => if existsb (N.eqb t) types then Ok (mkmsg d s t g data) else Err EValue
          | _ => Err EValue
          end.
 Proof.
@@ -214,21 +214,22 @@ Lemma ib_payload_shape m :
                   crc_of ([m_dest m; m_src m; m_type m; m_reg m] ++ m_data m) mod 256].
 Proof. reflexivity. Qed.
 
-Lemma ib_roundtrip m : valid_msg m -> exists f, ib_encode m = Ok f /\ ib_decode f = Ok m.
+Lemma ib_roundtrip types m : valid_msg m -> In (m_type m) types ->
+  exists f, ib_encode m = Ok f /\ ib_decode types f = Ok m.
 Proof.
-  intro V. eexists. split; [apply ib_encode_valid, V|].
-  destruct V as (_ & _ & _ & _ & Ht).
+  intros V Ht. eexists. split; [apply ib_encode_valid, V|].
   cbn [app]. 
   assert (LP : (6 <= length (ib_payload m))%nat).
   { rewrite ib_payload_shape, app_length. cbn [length app]. lia. }
-  rewrite ib_decode_frame by (pose proof (escape_length_ge (ib_payload m)); lia).
+  rewrite (ib_decode_frame types) by (pose proof (escape_length_ge (ib_payload m)); lia).
   cbv zeta. rewrite unescape_escape.
   replace (len (ib_payload m) <? 6) with false by (unfold len; lia).
   rewrite ib_payload_shape at 1. rewrite crc_append. cbn [N.eqb negb].
   rewrite ib_payload_shape. set (p := [m_dest m; m_src m; m_type m; m_reg m] ++ m_data m).
   rewrite app_length. cbn [length]. replace (length p + 2 - 2)%nat with (length p + 0)%nat by lia.
   rewrite firstn_app_2. cbn [firstn]. rewrite app_nil_r. subst p. cbn [app].
-  replace (m_type m <=? 9) with true by lia. destruct m; reflexivity.
+  assert (X : existsb (N.eqb (m_type m)) types = true) by (apply existsb_exists; exists (m_type m); split; [exact Ht|apply N.eqb_refl]).
+  rewrite X. destruct m; reflexivity.
 Qed.
 
 (* framing: SOT, body free of 0x0A/0x0D, EOT; hence read_until(b"\n") cuts exactly at EOT *)
@@ -254,7 +255,7 @@ Proof.
 Qed.
 
 (* every failure of the decoder is a ValueError *)
-Lemma ib_decode_err e : (exists m, ib_decode e = Ok m) \/ ib_decode e = Err EValue.
+Lemma ib_decode_err types e : (exists m, ib_decode types e = Ok m) \/ ib_decode types e = Err EValue.
 Proof.
   unfold ib_decode. destruct (len e <? 8); [right; reflexivity|].
   destruct e as [|sot r]; [right; reflexivity|].
@@ -262,16 +263,16 @@ Proof.
   destruct (len _ <? 6); [right; reflexivity|].
   destruct (negb _); [right; reflexivity|].
   destruct (firstn _ _) as [|d [|s [|t [|g data]]]]; try (right; reflexivity).
-  destruct (t <=? 9); [left; eexists; reflexivity|right; reflexivity].
+  destruct (existsb (N.eqb t) types); [left; eexists; reflexivity|right; reflexivity].
 Qed.
 
 (* soundness: whatever is accepted has SOT/EOT, a verifying CRC and the returned fields *)
-Lemma ib_decode_sound e m : ib_decode e = Ok m ->
+Lemma ib_decode_sound types e m : ib_decode types e = Ok m ->
   exists body c1 c2,
     e = 13 :: body ++ [10] /\ (8 <= length e)%nat /\
     crc_of (unescape body) = 0 /\
     unescape body = [m_dest m; m_src m; m_type m; m_reg m] ++ m_data m ++ [c1; c2] /\
-    m_type m <= 9.
+    In (m_type m) types.
 Proof.
   unfold ib_decode. destruct (len e <? 8) eqn:L; [discriminate|].
   destruct e as [|sot r]; [discriminate|].
@@ -279,7 +280,7 @@ Proof.
   destruct (len _ <? 6) eqn:L6; [discriminate|].
   destruct (negb (crc_of _ =? 0)) eqn:C; [discriminate|].
   destruct (firstn _ _) as [|d [|s [|t [|g data]]]] eqn:F; try discriminate.
-  destruct (t <=? 9) eqn:T; [|discriminate]. intro H. injection H as <-. cbn [m_dest m_src m_type m_reg m_data].
+  destruct (existsb (N.eqb t) types) eqn:T; [|discriminate]. intro H. injection H as <-. cbn [m_dest m_src m_type m_reg m_data].
   assert (Hr : r <> []).
   { intro; subst r. unfold len in L. cbn in L. discriminate. }
   apply negb_false_iff, andb_true_iff in SE. destruct SE as [S1 S2].
@@ -296,95 +297,142 @@ Proof.
   - unfold len in L. lia.
   - apply negb_false_iff, N.eqb_eq in C. exact C.
   - fold u. rewrite Hu at 1. rewrite F. reflexivity.
-  - lia.
+  - apply existsb_exists in T. destruct T as (x & Hx & E). apply N.eqb_eq in E. subst x. exact Hx.
 Qed.
 
-Lemma ib_reject e :
+Lemma ib_reject types e :
   (length e < 8)%nat \/ hd 0 e <> 13 \/ last e 0 <> 10 \/
   crc_of (unescape (removelast (tl e))) <> 0 \/ (length (unescape (removelast (tl e))) < 6)%nat ->
-  ib_decode e = Err EValue.
+  ib_decode types e = Err EValue.
 Proof.
-  intro H. destruct (ib_decode_err e) as [[m Hm]|E]; [|exact E]. exfalso.
-  destruct (ib_decode_sound e m Hm) as (body & c1 & c2 & -> & L & C & U & _).
+  intro H. destruct (ib_decode_err types e) as [[m Hm]|E]; [|exact E]. exfalso.
+  destruct (ib_decode_sound types e m Hm) as (body & c1 & c2 & -> & L & C & U & _).
   cbn [hd tl] in H. rewrite last_frame, removelast_last in H.
   destruct H as [H|[H|[H|[H|H]]]]; try contradiction; try lia.
   rewrite U in H. cbn [length app] in H. rewrite app_length in H. cbn [length] in H. lia.
 Qed.
 
-(* ---------- _request_response --------------------------------------------------------- *)
-Lemma rr_loop_ok req dst src script : forall fc wr w m,
-  rr_loop req dst src fc script wr = (w, Ok m) ->
-  m_src m = dst /\ m_dest m = src /\ exists f, In (RdBytes f) script /\ ib_decode f = Ok m.
+(* a message type that is not a member of the MessageType enum is rejected too *)
+Lemma ib_reject_type types e body d s t g data c1 c2 :
+  e = 13 :: body ++ [10] -> unescape body = [d; s; t; g] ++ data ++ [c1; c2] -> ~ In t types ->
+  ib_decode types e = Err EValue.
+Proof.
+  intros -> U NI. destruct (ib_decode_err types (13 :: body ++ [10])) as [[m Hm]|E]; [|exact E]. exfalso.
+  destruct (ib_decode_sound _ _ _ Hm) as (body' & c1' & c2' & E & _ & _ & U' & T).
+  injection E as E. apply app_inj_tail in E. destruct E as [<- _]. rewrite U in U'.
+  injection U' as _ _ Et _. subst t. contradiction.
+Qed.
+
+(* ---------- _request_response (for EVERY retry bound maxr and host base address) --------- *)
+Lemma rr_loop_ok types maxr req dst src script : forall fc wr w m,
+  rr_loop types maxr req dst src fc script wr = (w, Ok m) ->
+  m_src m = dst /\ m_dest m = src /\ exists f, In (RdBytes f) script /\ ib_decode types f = Ok m.
 Proof.
   induction script as [|ev rest IH]; intros fc wr w m H; cbn [rr_loop] in H; [discriminate|].
   destruct ev as [|b].
-  - destruct (MAX_RETRY <? S fc)%nat; [discriminate|].
+  - destruct (maxr <? S fc)%nat; [discriminate|].
     destruct (IH _ _ _ _ H) as (A & B & f & I & D). repeat split; try assumption. exists f. split; [right; exact I|exact D].
-  - destruct (ib_decode b) as [m'|e] eqn:D.
+  - destruct (ib_decode types b) as [m'|e] eqn:D.
     + destruct ((m_src m' =? dst) && (m_dest m' =? src)) eqn:M.
       * injection H as <- <-. apply andb_true_iff in M. destruct M as [M1 M2].
         apply N.eqb_eq in M1, M2. repeat split; try assumption. exists b. split; [left; reflexivity|exact D].
-      * destruct (MAX_RETRY <? S fc)%nat; [discriminate|].
+      * destruct (maxr <? S fc)%nat; [discriminate|].
         destruct (IH _ _ _ _ H) as (A & B & f & I & D'). repeat split; try assumption. exists f. split; [right; exact I|exact D'].
-    + destruct (MAX_RETRY <? S fc)%nat; [discriminate|].
+    + destruct (maxr <? S fc)%nat; [discriminate|].
       destruct (IH _ _ _ _ H) as (A & B & f & I & D'). repeat split; try assumption. exists f. split; [right; exact I|exact D'].
 Qed.
 
-(* writes: the initial ones followed by at most MAX_RETRY - fc copies of the request *)
-Lemma rr_loop_writes req dst src script : forall fc wr w r,
-  (fc <= MAX_RETRY)%nat ->
-  rr_loop req dst src fc script wr = (w, r) ->
-  exists k, w = wr ++ repeat req k /\ (fc + k <= MAX_RETRY)%nat.
+(* writes: the initial ones followed by at most maxr - fc copies of the request *)
+Lemma rr_loop_writes types maxr req dst src script : forall fc wr w r,
+  (fc <= maxr)%nat ->
+  rr_loop types maxr req dst src fc script wr = (w, r) ->
+  exists k, w = wr ++ repeat req k /\ (fc + k <= maxr)%nat.
 Proof.
-  unfold MAX_RETRY.
   induction script as [|ev rest IH]; intros fc wr w r Hfc H; cbn [rr_loop] in H.
   - injection H as <- _. exists 0%nat. rewrite app_nil_r. split; [reflexivity|lia].
-  - unfold MAX_RETRY in H. 
-    assert (RES : (S fc <= 10)%nat -> rr_loop req dst src (S fc) rest (wr ++ [req]) = (w, r) ->
-                  exists k, w = wr ++ repeat req k /\ (fc + k <= 10)%nat).
+  - assert (RES : (S fc <= maxr)%nat -> rr_loop types maxr req dst src (S fc) rest (wr ++ [req]) = (w, r) ->
+                  exists k, w = wr ++ repeat req k /\ (fc + k <= maxr)%nat).
     { intros C H'. destruct (IH _ _ _ _ C H') as (k & -> & K).
       exists (S k). rewrite <- app_assoc. split; [reflexivity|lia]. }
-    assert (STOP : forall x, (wr, x) = (w, r) -> exists k, w = wr ++ repeat req k /\ (fc + k <= 10)%nat).
+    assert (STOP : forall x, (wr, x) = (w, r) -> exists k, w = wr ++ repeat req k /\ (fc + k <= maxr)%nat).
     { intros x E. injection E as <- _. exists 0%nat. rewrite app_nil_r. split; [reflexivity|lia]. }
     destruct ev as [|b].
-    + destruct (10 <? S fc)%nat eqn:C; [eapply STOP; exact H|apply Nat.ltb_ge in C; apply (RES C H)].
-    + destruct (ib_decode b) as [m'|e].
+    + destruct (maxr <? S fc)%nat eqn:C; [eapply STOP; exact H|apply Nat.ltb_ge in C; apply (RES C H)].
+    + destruct (ib_decode types b) as [m'|e].
       * destruct ((m_src m' =? dst) && (m_dest m' =? src)); [eapply STOP; exact H|].
-        destruct (10 <? S fc)%nat eqn:C; [eapply STOP; exact H|].
+        destruct (maxr <? S fc)%nat eqn:C; [eapply STOP; exact H|].
         apply Nat.ltb_ge in C. destruct (IH _ _ _ _ C H) as (k & -> & K). exists k. split; [reflexivity|lia].
-      * destruct (10 <? S fc)%nat eqn:C; [eapply STOP; exact H|apply Nat.ltb_ge in C; apply (RES C H)].
+      * destruct (maxr <? S fc)%nat eqn:C; [eapply STOP; exact H|apply Nat.ltb_ge in C; apply (RES C H)].
 Qed.
 
-(* reads: only the first MAX_RETRY+1-fc scripted reads can matter, and they suffice for a verdict *)
-Lemma rr_loop_reads req dst src : forall s1 s2 fc wr,
-  (fc <= MAX_RETRY)%nat -> length s1 = (S MAX_RETRY - fc)%nat ->
-  rr_loop req dst src fc (s1 ++ s2) wr = rr_loop req dst src fc s1 wr /\
-  snd (rr_loop req dst src fc s1 wr) <> Err EExhausted.
+(* reads: only the first maxr+1-fc scripted reads can matter, and they suffice for a verdict *)
+Lemma rr_loop_reads types maxr req dst src : forall s1 s2 fc wr,
+  (fc <= maxr)%nat -> length s1 = (S maxr - fc)%nat ->
+  rr_loop types maxr req dst src fc (s1 ++ s2) wr = rr_loop types maxr req dst src fc s1 wr /\
+  snd (rr_loop types maxr req dst src fc s1 wr) <> Err EExhausted.
 Proof.
-  unfold MAX_RETRY.
   induction s1 as [|ev rest IH]; intros s2 fc wr Hfc L; cbn [length] in L; [lia|].
-  cbn [app rr_loop]. unfold MAX_RETRY.
-  destruct (10 <? S fc)%nat eqn:C.
+  cbn [app rr_loop].
+  destruct (maxr <? S fc)%nat eqn:C.
   - destruct ev as [|b]; [split; [reflexivity|discriminate]|].
-    destruct (ib_decode b) as [m'|e]; [|split; [reflexivity|discriminate]].
+    destruct (ib_decode types b) as [m'|e]; [|split; [reflexivity|discriminate]].
     destruct (_ && _); split; try reflexivity; discriminate.
-  - apply Nat.ltb_ge in C. assert (L' : length rest = (11 - S fc)%nat) by lia.
+  - apply Nat.ltb_ge in C. assert (L' : length rest = (S maxr - S fc)%nat) by lia.
     destruct ev as [|b]; [apply IH; assumption|].
-    destruct (ib_decode b) as [m'|e]; [|apply IH; assumption].
+    destruct (ib_decode types b) as [m'|e]; [|apply IH; assumption].
     destruct (_ && _); [split; [reflexivity|discriminate]|apply IH; assumption].
+Qed.
+
+(* a device that answers correctly only on attempt k (after k-1 timeouts / malformed frames /
+   mis-addressed frames): the payload iff k <= maxr + 1, otherwise the error *)
+Definition failing (types : list N) (dst src : N) (ev : rd) : bool :=
+  match ev with
+  | RdTimeout => true
+  | RdBytes b => match ib_decode types b with
+                 | Err _ => true
+                 | Ok m => negb ((m_src m =? dst) && (m_dest m =? src))
+                 end
+  end.
+
+Lemma rr_loop_attempt types maxr req dst src good m : 
+  ib_decode types good = Ok m -> m_src m = dst -> m_dest m = src ->
+  forall pre fc wr post, forallb (failing types dst src) pre = true ->
+  ((fc + length pre <= maxr)%nat ->
+     snd (rr_loop types maxr req dst src fc (pre ++ RdBytes good :: post) wr) = Ok m) /\
+  ((maxr < fc + length pre)%nat -> (fc <= maxr)%nat ->
+     exists e, snd (rr_loop types maxr req dst src fc (pre ++ RdBytes good :: post) wr) = Err e /\ e <> EExhausted).
+Proof.
+  intros D Ms Md. induction pre as [|ev pre IH]; intros fc wr post F.
+  - split.
+    + intros _. cbn [app rr_loop]. rewrite D, Ms, Md, !N.eqb_refl. reflexivity.
+    + cbn [length]. intros. lia.
+  - cbn [forallb] in F. apply andb_true_iff in F. destruct F as [Fe F].
+    cbn [app rr_loop length]. split.
+    + intro B. assert (C : (maxr <? S fc)%nat = false) by (apply Nat.ltb_ge; lia). rewrite C.
+      destruct ev as [|b]; [apply IH; [exact F|lia]|].
+      cbn [failing] in Fe. destruct (ib_decode types b) as [m'|e]; [|apply IH; [exact F|lia]].
+      apply negb_true_iff in Fe. rewrite Fe. apply IH; [exact F|lia].
+    + intros B Hfc. destruct (maxr <? S fc)%nat eqn:C.
+      * destruct ev as [|b]; [exists ETimeout; split; [reflexivity|discriminate]|].
+        cbn [failing] in Fe. destruct (ib_decode types b) as [m'|e]; [|exists EInstr; split; [reflexivity|discriminate]].
+        apply negb_true_iff in Fe. rewrite Fe. exists EInstr; split; [reflexivity|discriminate].
+      * apply Nat.ltb_ge in C.
+        destruct ev as [|b]; [apply IH; [exact F|lia|lia]|].
+        cbn [failing] in Fe. destruct (ib_decode types b) as [m'|e]; [|apply IH; [exact F|lia|lia]].
+        apply negb_true_iff in Fe. rewrite Fe. apply IH; [exact F|lia|lia].
 Qed.
 
 Lemma next_toggle_alternates t : t < 2 -> next_toggle t = 1 - t /\ next_toggle (next_toggle t) = t.
 Proof. intro H. assert (t = 0 \/ t = 1) as [->| ->] by lia; split; reflexivity. Qed.
 
-Lemma rr_match toggle dst mt reg data script t w m :
-  request_response toggle dst mt reg data script = (t, w, Ok m) ->
-  m_src m = dst /\ m_dest m = 161 + next_toggle toggle /\
-  exists f, In (RdBytes f) script /\ ib_decode f = Ok m.
+Lemma rr_match types maxr base toggle dst mt reg data script t w m :
+  request_response types maxr base toggle dst mt reg data script = (t, w, Ok m) ->
+  m_src m = dst /\ m_dest m = base + next_toggle toggle /\
+  exists f, In (RdBytes f) script /\ ib_decode types f = Ok m.
 Proof.
   unfold request_response. destruct (ib_encode _) as [req|e]; [|discriminate].
-  destruct (rr_loop _ _ _ _ _ _) as [w' r'] eqn:L. intro H. injection H as _ _ ->.
-  exact (rr_loop_ok _ _ _ _ _ _ _ _ L).
+  destruct (rr_loop _ _ _ _ _ _ _ _) as [w' r'] eqn:L. intro H. injection H as _ _ ->.
+  exact (rr_loop_ok _ _ _ _ _ _ _ _ _ _ L).
 Qed.
 
 Lemma ib_encode_err m e : ib_encode m = Err e -> e = EValue.
@@ -394,29 +442,46 @@ Proof.
     try discriminate; injection E as <-; reflexivity.
 Qed.
 
-Lemma rr_bounded toggle dst mt reg data script t w r :
-  request_response toggle dst mt reg data script = (t, w, r) ->
+Lemma rr_bounded types maxr base toggle dst mt reg data script t w r :
+  request_response types maxr base toggle dst mt reg data script = (t, w, r) ->
   t = next_toggle toggle /\
-  ((w = [] /\ r = Err EValue /\ ib_encode (mkmsg dst (161 + next_toggle toggle) mt reg data) = Err EValue) \/
-   exists req k, ib_encode (mkmsg dst (161 + next_toggle toggle) mt reg data) = Ok req /\
-                 w = req :: repeat req k /\ (k <= MAX_RETRY)%nat).
+  ((w = [] /\ r = Err EValue /\ ib_encode (mkmsg dst (base + next_toggle toggle) mt reg data) = Err EValue) \/
+   exists req k, ib_encode (mkmsg dst (base + next_toggle toggle) mt reg data) = Ok req /\
+                 w = req :: repeat req k /\ (k <= maxr)%nat).
 Proof.
   unfold request_response. destruct (ib_encode _) as [req|e] eqn:E.
-  - destruct (rr_loop _ _ _ _ _ _) as [w' r'] eqn:L. intro H. injection H as <- <- <-. split; [reflexivity|].
-    right. destruct (rr_loop_writes _ _ _ _ _ _ _ _ (Nat.le_0_l _) L) as (k & -> & K).
+  - destruct (rr_loop _ _ _ _ _ _ _ _) as [w' r'] eqn:L. intro H. injection H as <- <- <-. split; [reflexivity|].
+    right. destruct (rr_loop_writes _ _ _ _ _ _ _ _ _ _ (Nat.le_0_l _) L) as (k & -> & K).
     exists req, k. repeat split; try reflexivity. lia.
   - intro H. injection H as <- <- <-. split; [reflexivity|]. left.
     apply ib_encode_err in E. subst e. repeat split; reflexivity.
 Qed.
 
-Lemma rr_reads toggle dst mt reg data s1 s2 :
-  length s1 = S MAX_RETRY ->
-  request_response toggle dst mt reg data (s1 ++ s2) = request_response toggle dst mt reg data s1 /\
-  snd (request_response toggle dst mt reg data s1) <> Err EExhausted.
+Lemma rr_reads types maxr base toggle dst mt reg data s1 s2 :
+  length s1 = S maxr ->
+  request_response types maxr base toggle dst mt reg data (s1 ++ s2) =
+    request_response types maxr base toggle dst mt reg data s1 /\
+  snd (request_response types maxr base toggle dst mt reg data s1) <> Err EExhausted.
 Proof.
   intro L. unfold request_response. destruct (ib_encode _) as [req|e] eqn:E.
-  - destruct (rr_loop_reads req dst (161 + next_toggle toggle) s1 s2 0 [req] (Nat.le_0_l _)) as [A B].
+  - destruct (rr_loop_reads types maxr req dst (base + next_toggle toggle) s1 s2 0 [req] (Nat.le_0_l _)) as [A B].
     { rewrite L. lia. }
-    rewrite A. destruct (rr_loop _ _ _ _ s1 _) as [w r]. split; [reflexivity|exact B].
+    rewrite A. destruct (rr_loop _ _ _ _ _ _ s1 _) as [w r]. split; [reflexivity|exact B].
   - split; [reflexivity|]. apply ib_encode_err in E. subst e. discriminate.
+Qed.
+
+(* request level: good reply on attempt k = length pre + 1 *)
+Lemma rr_attempt types maxr base toggle dst mt reg data req good m pre post :
+  ib_encode (mkmsg dst (base + next_toggle toggle) mt reg data) = Ok req ->
+  ib_decode types good = Ok m -> m_src m = dst -> m_dest m = base + next_toggle toggle ->
+  forallb (failing types dst (base + next_toggle toggle)) pre = true ->
+  ((length pre <= maxr)%nat ->
+     snd (request_response types maxr base toggle dst mt reg data (pre ++ RdBytes good :: post)) = Ok m) /\
+  ((maxr < length pre)%nat ->
+     exists e, snd (request_response types maxr base toggle dst mt reg data (pre ++ RdBytes good :: post)) = Err e
+               /\ e <> EExhausted).
+Proof.
+  intros E D Ms Md F. unfold request_response. rewrite E.
+  destruct (rr_loop_attempt types maxr req dst (base + next_toggle toggle) good m D Ms Md pre 0%nat [req] post F) as [A B].
+  destruct (rr_loop _ _ _ _ _ _ _ _) as [w r]. cbn [snd] in *. split; [intro; apply A; lia|intro; apply B; lia].
 Qed.
